@@ -204,6 +204,9 @@ def unpack_remb_fci(data: bytes) -> tuple[int, list[int]]:
     mantissa = ((data[5] & 0x03) << 16) | (data[6] << 8) | data[7]
     bitrate = mantissa << exponent
 
+    if len(data) < 8 + 4 * data[4]:
+        raise ValueError("REMB SSRC list is truncated")
+
     pos = 8
     ssrcs = []
     for r in range(data[4]):
